@@ -20,6 +20,9 @@ type Case struct {
 	Kind int
 	Src  string
 	Gas  int64
+	// kindRealm only: what happens after the package has been added and committed, one transaction (or query)
+	// each: "call:<Func>", "qeval:<expr>", "qjson:<expr>"
+	Steps []string
 }
 
 type family interface {
@@ -698,6 +701,156 @@ func newGen(thorough bool) *gen {
 	g.fams = append(g.fams, lf)
 	g.fams = append(g.fams, &listFamily{name: "consts", cases: constCases(thorough)})
 	g.fams = append(g.fams, &listFamily{name: "menu", cases: menuCases()})
+	g.fams = append(g.fams, &listFamily{name: "cycles", cases: cycleCases(thorough)})
 	g.fams = append(g.fams, mutationFamily())
 	return g
+}
+
+// ---------------------------------------------------------------------------------------------
+// (f) reference cycles: cycle length x tail length x link kind x placement x consumer
+//
+// N = tail+cyc nodes n0..n(N-1); node i refers to node i+1, the last one back to node `tail` (a rho shape;
+// tail 0 = a pure cycle). Every node owns one slot that holds the reference to its successor. Node kinds:
+//
+//	A  interface variable            var aI any           aI = R        referred to as &aI      (pointer to interface)
+//	S  pointer to struct             var sI = &S{}        sI.p = R      referred to as sI       (pointer field in struct)
+//	F  pointer to a struct field     var fI = &S{}        fI.p = R      referred to as &fI.p
+//	E  pointer to a slice element    var eI = make([]any,1) eI[0] = R   referred to as &eI[0]
+//	M  map value                     var mI = map[string]any{} mI["k"]=R referred to as mI
+//	P  pointer of a recursive pointer type (type P *P)  var pI P  pI = &pJ   (no interface in the chain; pure only)
+//
+// A link pattern assigns a kind to every node (pure patterns and two rotations mixing all interface-slot kinds).
+// Placement: nodes are locals of the building function (heap items) or package-level variables (block slots).
+// Consumers walk the structure from the entry reference: println, uncaught panic (message rendering by the
+// keeper), recover + println, map key (hash), interface equality; and as a realm: built by init and stored in a
+// package variable (persistence walks it), then - each in its own transaction on the committed state, i.e.
+// loaded back from the store - printed by a MsgCall, rendered by the qeval and JSON-eval queries, used as a
+// panic value by a MsgCall, and printed once more.
+
+const kindRealm = 2 // MsgAddPackage, commit, then Case.Steps one by one (each in a fresh transaction store)
+
+var cyclePatterns = []struct{ name, rot string }{
+	{"ptr-to-iface", "A"}, {"struct-ptr-field", "S"}, {"field-ptr", "F"}, {"slice-elem", "E"}, {"map-value", "M"}, {"ptr-type", "P"},
+	{"mixed", "ASFEM"}, {"mixed-rev", "MEFSA"},
+}
+
+var cycleConsumers = []struct{ name, body string }{
+	{"println", "println(ent)"},
+	{"panic", "panic(ent)"},
+	{"recover-println", "defer func() {\n\tr := recover()\n\tprintln(r)\n}()\npanic(ent)"},
+	{"mapkey", "m := map[any]int{}\nm[ent] = 1\nprintln(m[ent], len(m))"},
+	{"equal", "var o any = ent\nprintln(o == ent, o != nil)"},
+}
+
+// cycleParts returns the node declarations, the linking statements and the entry expression.
+func cycleParts(rot string, cyc, tail int) (decls []string, links []string, entry string) {
+	n := tail + cyc
+	kind := func(i int) byte { return rot[i%len(rot)] }
+	ref := func(i int) string {
+		switch kind(i) {
+		case 'A':
+			return fmt.Sprintf("&a%d", i)
+		case 'S':
+			return fmt.Sprintf("s%d", i)
+		case 'F':
+			return fmt.Sprintf("&f%d.p", i)
+		case 'E':
+			return fmt.Sprintf("&e%d[0]", i)
+		case 'M':
+			return fmt.Sprintf("m%d", i)
+		}
+		return fmt.Sprintf("&p%d", i)
+	}
+	for i := 0; i < n; i++ {
+		next := i + 1
+		if next == n {
+			next = tail
+		}
+		r := ref(next)
+		switch kind(i) {
+		case 'A':
+			decls = append(decls, fmt.Sprintf("var a%d any", i))
+			links = append(links, fmt.Sprintf("a%d = %s", i, r))
+		case 'S':
+			decls = append(decls, fmt.Sprintf("var s%d = &S{}", i))
+			links = append(links, fmt.Sprintf("s%d.p = %s", i, r))
+		case 'F':
+			decls = append(decls, fmt.Sprintf("var f%d = &S{}", i))
+			links = append(links, fmt.Sprintf("f%d.p = %s", i, r))
+		case 'E':
+			decls = append(decls, fmt.Sprintf("var e%d = make([]any, 1)", i))
+			links = append(links, fmt.Sprintf("e%d[0] = %s", i, r))
+		case 'M':
+			decls = append(decls, fmt.Sprintf("var m%d = map[string]any{}", i))
+			links = append(links, fmt.Sprintf("m%d[\"k\"] = %s", i, r))
+		default:
+			decls = append(decls, fmt.Sprintf("var p%d P", i))
+			links = append(links, fmt.Sprintf("p%d = %s", i, r))
+		}
+	}
+	entry = ref(0)
+	if kind(0) == 'P' {
+		entry = "p0"
+	}
+	return
+}
+
+func indent(lines []string) string {
+	var b strings.Builder
+	for _, l := range lines {
+		for _, ll := range strings.Split(l, "\n") {
+			b.WriteString("\t" + ll + "\n")
+		}
+	}
+	return b.String()
+}
+
+func cycleBounds(thorough bool) (maxCyc, maxTail int) {
+	if thorough {
+		return 17, 5
+	}
+	return 9, 3
+}
+
+// cycleGroupSize: cases per (link pattern, consumer) group = cycle lengths x tail lengths x placements.
+func cycleGroupSize(thorough bool) int64 {
+	c, t := cycleBounds(thorough)
+	return int64(c * (t + 1) * 2)
+}
+
+// cycleCases: ordered by (link pattern, consumer) group, within a group by cycle length, tail length, placement.
+func cycleCases(thorough bool) []Case {
+	maxCyc, maxTail := cycleBounds(thorough)
+	const types = "type S struct{ p any }\n\ntype P *P\n\n"
+	var cs []Case
+	for _, pat := range cyclePatterns {
+		for ci := 0; ci <= len(cycleConsumers); ci++ {
+			for cyc := 1; cyc <= maxCyc; cyc++ {
+				for tail := 0; tail <= maxTail; tail++ {
+					decls, links, entry := cycleParts(pat.rot, cyc, tail)
+					for _, place := range []string{"local", "global"} {
+						shape := fmt.Sprintf("%s/cyc%d/tail%d/%s", pat.name, cyc, tail, place)
+						top, build := "", ""
+						if place == "global" {
+							top = strings.Join(decls, "\n") + "\n\n"
+							build = indent(links)
+						} else {
+							build = indent(decls) + indent(links)
+						}
+						if ci < len(cycleConsumers) {
+							con := cycleConsumers[ci]
+							src := "package main\n\n" + types + top + "func main() {\n" + build + "\tvar ent any = " + entry + "\n" + indent([]string{con.body}) + "}\n"
+							cs = append(cs, Case{ID: "cycle-shape/" + shape + "/" + con.name, Kind: kindRun, Src: src, Gas: 20_000_000})
+							continue
+						}
+						src := "package pkg\n\n" + types + top + "var G any\n\nfunc init() {\n" + build + "\tG = " + entry + "\n}\n\n" +
+							"func Show(cur realm) { println(G) }\n\nfunc Boom(cur realm) { panic(G) }\n"
+						cs = append(cs, Case{ID: "cycle-shape/" + shape + "/persist", Kind: kindRealm, Src: src, Gas: 50_000_000,
+							Steps: []string{"call:Show", "qeval:G", "qjson:G", "call:Boom", "call:Show"}})
+					}
+				}
+			}
+		}
+	}
+	return cs
 }
